@@ -6,6 +6,8 @@
 //   verif-harness stmt    CASES      line = hex(source)          (public `statement` entry point)
 //   verif-harness compile CASES      line = FLAGS \t MAIN \t PATH=hex(src) \t PATH=hex(src) ...
 //                                    FLAGS: comma list of std|nostd, require=<hex>, render, tree
+//   verif-harness phases  CASES      like compile; prints Debug dumps of vars/resolved/ordered/ir/usage (hex)
+//   verif-harness tree    CASES      like compile; prints the parsed modules (sylt_parser::tree) as S-expressions with spans
 //   verif-harness repeat N CASES     like compile, each case compiled N times in-process; prints a digest line
 //
 // Options (before the subcommand): --skip K (skip the first K cases), --timeout SECS (per case watchdog).
@@ -248,6 +250,72 @@ fn compile_line(c: &CompileCase) -> String {
     }
 }
 
+/// All intermediate results of the pipeline (needs the cfg-guarded hook in sylt-compiler).
+#[cfg(sylt_lang_sylt_lang_verif)]
+fn phases_line(c: &CompileCase) -> String {
+    let r = std::panic::catch_unwind(std::panic::AssertUnwindSafe(|| {
+        let files = &c.files;
+        let reader = |p: &Path| -> Result<String, Error> {
+            files.get(p).cloned().ok_or_else(|| Error::FileNotFound(p.to_path_buf()))
+        };
+        let tree = match sylt_parser::tree(Path::new(&c.main), reader, c.std) {
+            Ok(t) => t,
+            Err(errs) => {
+                return format!(
+                    "PH parse ERR{}",
+                    errs.iter().map(|e| format!(" {}", error_line(e))).collect::<String>()
+                )
+            }
+        };
+        let (dumps, res) = sylt_compiler::verif::phases(tree);
+        let mut out = String::from("PH");
+        for (name, d) in dumps.iter() {
+            out.push_str(&format!(" {}={}", name, hex(d.as_bytes())));
+        }
+        match res {
+            Ok(()) => out.push_str(" OK"),
+            Err(errs) => {
+                out.push_str(" ERR");
+                for e in errs.iter() {
+                    out.push(' ');
+                    out.push_str(&error_line(e));
+                }
+            }
+        }
+        out
+    }));
+    match r {
+        Ok(s) => s,
+        Err(p) => format!("PANIC {}", hex(panic_message(p).as_bytes())),
+    }
+}
+
+#[cfg(not(sylt_lang_sylt_lang_verif))]
+fn phases_line(_c: &CompileCase) -> String {
+    "PH unavailable (build with --cfg sylt_lang_sylt_lang_verif)".to_string()
+}
+
+/// `sylt_parser::tree` only: `TREE <hex of module dump with spans>` or `ERR ...`
+fn tree_line(c: &CompileCase) -> String {
+    let r = std::panic::catch_unwind(std::panic::AssertUnwindSafe(|| {
+        let files = &c.files;
+        let reader = |p: &Path| -> Result<String, Error> {
+            files.get(p).cloned().ok_or_else(|| Error::FileNotFound(p.to_path_buf()))
+        };
+        match sylt_parser::tree(Path::new(&c.main), reader, c.std) {
+            Ok(t) => format!("TREE {}", hex(sexp::tree_dump(&t, true).as_bytes())),
+            Err(errs) => format!(
+                "ERR{}",
+                errs.iter().map(|e| format!(" {}", error_line(e))).collect::<String>()
+            ),
+        }
+    }));
+    match r {
+        Ok(s) => s,
+        Err(p) => format!("PANIC {}", hex(panic_message(p).as_bytes())),
+    }
+}
+
 fn fnv(data: &[u8]) -> u64 {
     let mut h: u64 = 0xcbf29ce484222325;
     for b in data {
@@ -328,6 +396,8 @@ fn main() {
                         }
                     }
                     "compile" => compile_line(&parse_compile_case(line)),
+                    "phases" => phases_line(&parse_compile_case(line)),
+                    "tree" => tree_line(&parse_compile_case(line)),
                     "repeat" => {
                         let c = parse_compile_case(line);
                         let mut digests = Vec::new();
